@@ -75,6 +75,12 @@ def run_check(pid, tier, replay=None):
             ok, audit = C.axiom_audit(pid, prop_modules)
             if not ok:
                 res.broke("axiom audit", {k: audit[k] for k in ("bad", "missing", "raw")})
+            if not ctx.quick and prop_modules:
+                # thorough tier: independent re-check of the compiled property modules (and everything they import)
+                ok2, out2 = C.leanchecker(prop_modules)
+                res.coverage["leanchecker"] = {"modules": prop_modules, "ok": ok2, "tail": out2[-300:]}
+                if not ok2:
+                    res.broke("leanchecker rejected a compiled property module", out2[-2000:])
     if res.broken:
         ctx.suspect = True
 
